@@ -98,6 +98,29 @@ def main():
                     steps = np.abs(np.diff(r.t))
                     if len(steps) == 0 or np.max(steps) > ms * (1 + 1e-12) or abs(r.t[-1] - span[1]) > 1e-12:
                         fail("max_step-exceeded-or-run-incomplete", method=mname, span=span, max_step=ms, first_step=fs, longest=float(np.max(steps)) if len(steps) else None, last=float(r.t[-1]))
+    # t_eval together with a terminal event: the requested times that lie before the event must come back as they are; what comes back for
+    # the requested times *after* the stop is known finding F33 (the loop keeps calling integrate(), the event time is returned in their place)
+    def osc(t, y):
+        return np.array([y[1], -y[0]])
+
+    def hit(t, y):
+        return y[0]
+    hit.is_terminal = True
+    for sgn in (1.0, -1.0):
+        cases += 1
+        te = sgn * np.linspace(0.0, 5.0, 11)
+        try:
+            r = de.solve_ivp(osc, (0.0, sgn * 5.0), np.array([1.0, 0.0]), t_eval=te, events=[hit], rtol=1e-9, atol=1e-9)
+        except Exception as e:
+            fail("t_eval-with-terminal-event-raises", direction=sgn, exc=repr(e)[:120])
+            continue
+        t_ev = np.pi / 2
+        tr = np.asarray(r.t, dtype=float)
+        before = [x for x in te if abs(x) < t_ev - 1e-6]
+        if len(tr) < len(before) or np.max(np.abs(tr[:len(before)] - np.array(before))) > 1e-9:
+            fail("t_eval-before-a-terminal-event-not-returned-as-requested", direction=sgn, got=[float(x) for x in tr[:6]])
+        elif len(tr) != len(before) and (len(tr) != len(te) or np.max(np.abs(tr - te)) > 1e-9):
+            fail("t_eval-after-a-terminal-event-returns-event-times-in-place-of-the-requested-ones", direction=sgn, got=[float(x) for x in tr[len(before):len(before) + 4]], requested=[float(x) for x in te[len(before):len(before) + 4]])
     print(json.dumps(dict(cases=cases, failures=failures, bound="4 methods (by name and by class) x 3 state shapes x 2 directions; 6 t_eval subsets x 2 directions; args + scipy parity; max_step x first_step x 2 directions")))
 
 
